@@ -83,3 +83,13 @@ package sensors
 //@ func (*VirtualSensor).SetMovingAvg
 //@   ensures same(sensor.Value, avg)
 //@   modifies sensor.Value
+
+// ---- registry ---------------------------------------------------------------------------------------
+//@ ghost var sensorReg gset[string]
+//@ ghost var sensorFinite gset[string]
+//@ opaque func GetSensor
+//@   returns (s, ok)
+//@   ensures id in sensorReg ==> ok && sensorWF(s)
+//@   ensures id in sensorReg && id in sensorFinite ==> fin(avgOf(s))
+//@   modifies nothing
+//@   trusted "registry lookup (concurrent map): a registered id yields its well-formed sensor object"
